@@ -569,6 +569,29 @@ def case_rivavg(ctx, W, outs, nt, median):
     ctx.add(desc, [(op, args)], judge, nontrivial=nt)
 
 
+
+def den_check(a, method):
+    """third round: `slope_den_pos` - on strictly monotone distances along the segment the model's / spec's
+    denominator is > 0 (least squares; Lagrange's identity) resp. != 0 (mean); the hypothesis (distances
+    strictly monotone along the cells of the declarative segment) is evaluated by the driver on every case"""
+    fs = []
+    mono = a.get("spec.mono")
+    if mono is None:
+        return [{"kind": "model", "what": "driver did not report spec.mono (hypothesis of slope_den_pos)"}]
+    for k, (ok, mo) in enumerate(zip(a["spec.ok"], mono)):
+        if ok == 0:
+            continue
+        if mo != 1:
+            fs.append({"kind": "spec", "what": "distances along the cells of the segment are not strictly monotone "
+                       "(hypothesis of slope_den_pos; distnc is the implementation's own stream distance)", "outlet": k})
+            continue
+        for p in ("spec", "model"):
+            den = a[p + ".den"][k]
+            if (method == "lstsq" and den <= 0) or den == 0:
+                fs.append({"kind": "model", "what": f"{p}: slope denominator {den} on strictly monotone distances "
+                           "(contradicts slope_den_pos)", "outlet": k})
+    return fs
+
 def case_rivslp_both(ctx, W, outs, nt):
     """subgrid_rivslp(direction='both') = fixed_length_slope around the outlet pixel"""
     from pyflwdir import subgrid
@@ -625,7 +648,7 @@ def case_rivslp_both(ctx, W, outs, nt):
         a = ans[0]
         if "__err__" in a:
             return err(a)
-        fs = []
+        fs = den_check(a, method)
         s, m = val(a, "spec"), val(a, "model")
         if len(impl) != len(s) or not all(y is None or same_float(x, y) for x, y in zip(impl, s)):
             fs.append({"kind": "spec", "what": "slope around the outlet pixel differs from the slope over the cells within half the "
@@ -688,7 +711,7 @@ def case_rivslp(ctx, W, outs, nt):
         a = ans[0]
         if "__err__" in a:
             return err(a)
-        fs = []
+        fs = den_check(a, method)
         s, m = val(a, "spec"), val(a, "model")
         if len(impl) != len(s) or not all(y is None or same_float(x, y) for x, y in zip(impl, s)):
             fs.append({"kind": "spec", "what": "segment slope differs from the slope over the cells from the outlet pixel up to "
